@@ -220,6 +220,43 @@ struct H {
 
     // "floats P F": every float bit pattern at one (precision, format), sharded
     static void enumerate(pbt::Ctx &ctx, unsigned shard, unsigned nshards, const std::string &what) {
+        if (what.compare(0, 7, "sparse-") == 0) {
+            // every double whose significand has an odd part of at most N bits, in the binades below 1e-200 and above 1e200
+            // (where the digit generation keeps only a few guard words), at every precision 0..40 in the Default format
+            Qentem::MemoryRecord::data().enabled = false;
+            ctx.max_samples                      = 4;
+            const unsigned nbits                 = unsigned(atoi(what.c_str() + 7));
+            uint64_t       idx                   = 0;
+            for (uint64_t odd = 1; odd < (1ULL << nbits); odd += 2) {
+                if ((idx++ % nshards) != shard) {
+                    continue;
+                }
+                // place the odd part so that its top bit is the implicit leading bit
+                unsigned top = 63 - unsigned(__builtin_clzll(odd));
+                uint64_t frac = (top == 0) ? 0 : ((odd & ((1ULL << top) - 1)) << (52 - top));
+                for (unsigned be = 1; be < 2047; ++be) {
+                    if (be > 358 && be < 1688) {
+                        continue;
+                    }
+                    Case c;
+                    c.kind   = 0;
+                    c.bits   = (uint64_t(be) << 52) | frac;
+                    c.format = 0;
+                    c.width  = 1;
+                    c.cls    = "sparse-enumeration";
+                    for (unsigned prec = 0; prec <= 40; ++prec) {
+                        c.precision = prec;
+                        if (pbt::exec_case_fast<H>(ctx, c) == pbt::Status::Fail) {
+                            return;
+                        }
+                    }
+                }
+            }
+            ctx.exhaustive      = true;
+            ctx.exhaustive_what = "every double with an odd significand part of at most " + std::to_string(nbits) +
+                                  " bits in the binades below 1e-200 and above 1e200, precision 0..40, Default format";
+            return;
+        }
         unsigned p = 9;
         int      f = 0;
         sscanf(what.c_str(), "floats-%u-%d", &p, &f);
